@@ -26,6 +26,7 @@ TI_PATH_KINDS = ["packages", "repository", "source_packages", "source_repository
 
 NAMES = ["Fedora", "Red Hat Enterprise Linux", "Spacewalk", "Ünïcode Linux", "A" * 40,
          "7Server", "x-1.0-ga", "release", "Tools", "Fedora Server",
+         "Fedora-\udcff-Live",      # a lone surrogate (os.fsdecode of a non-UTF-8 file name): a str like any other
          'quo"ted', "back\\slash", "tab\tchar", "null", "0", "  padded  ", "snow \u2603 man", "a/b:c=d", "{}", "[x]"]
 SHORTS = ["F", "RHEL", "sw", "rhel-ha", "Fedora", "x1", "CentOS"]
 VERSIONS_NUM = ["20", "7.0", "7.1", "10.0.1", "2.2", "5", "6.10", "20150522"]
